@@ -11,6 +11,7 @@ import (
 	"errors"
 	"fmt"
 	"slices"
+	"strings"
 
 	"verif/harness/common"
 
@@ -952,6 +953,10 @@ func main() {
 			rec.Inconclusive("cannot load replay: " + err.Error())
 			return
 		}
+		if strings.HasPrefix(c.Tree.Op, "long/") {
+			runLong(c.Tree)
+			return
+		}
 		runTree(c.Tree)
 		return
 	}
@@ -982,6 +987,20 @@ func main() {
 	})
 	rec.Count("max_exhaustive_depth", int64(depth))
 	rec.Count("max_exhaustive_trees_total", int64(i))
+
+	j := 0
+	scaleTrees(pairs, func(t *node) {
+		if j%common.NBatch == common.Batch {
+			runTree(t)
+		}
+		j++
+	})
+	rec.Count("scale_family_trees_total", int64(j))
+	for k, t := range longCases(pairs) {
+		if k%common.NBatch == common.Batch {
+			runLong(t)
+		}
+	}
 
 	nrand := common.Pick(150000, 2000000)
 	for k := 0; k < nrand; k++ {
